@@ -160,12 +160,39 @@ def _to_symbolic_repr(model: Model) -> SymbolicRepr:
     return sym
 
 
+# names the generated module uses itself
+_RESERVED_FN_NAMES = frozenset(
+    {"math", "scipy", "Model", "Derived", "InitialAssignment", "create_model"}
+)
+
+
+def _register_fn(
+    functions: dict[str, tuple[sympy.Expr, list[str]]],
+    name: str,
+    expr: sympy.Expr,
+    args: list[str],
+) -> str:
+    """Register a function of the generated module under a name of its own.
+
+    Helper names (init_<x>, <reaction>_stoich_<compound>) share one namespace with the
+    functions named after components; a name that is taken by another function gets
+    underscores appended.
+    """
+    while name in _RESERVED_FN_NAMES or (
+        name in functions and functions[name] != (expr, args)
+    ):
+        name = f"{name}_"
+    functions[name] = (expr, args)
+    return name
+
+
 def _codegen_variable(
     k: str, var: SymbolicVariable, functions: dict[str, tuple[sympy.Expr, list[str]]]
 ) -> str:
     if isinstance(init := var.value, SymbolicFn):
-        fn_name = f"init_{init.fn_name}"
-        functions[fn_name] = (init.expr, init.args)
+        fn_name = _register_fn(
+            functions, f"init_{init.fn_name}", init.expr, init.args
+        )
         return f"""        .add_variable(
             {k!r},
             initial_value=InitialAssignment(fn={fn_name}, args={init.args!r}),
@@ -181,8 +208,9 @@ def _codegen_parameter(
     k: str, par: SymbolicParameter, functions: dict[str, tuple[sympy.Expr, list[str]]]
 ) -> str:
     if isinstance(init := par.value, SymbolicFn):
-        fn_name = f"init_{init.fn_name}"
-        functions[fn_name] = (init.expr, init.args)
+        fn_name = _register_fn(
+            functions, f"init_{init.fn_name}", init.expr, init.args
+        )
         return f"""        .add_parameter(
             {k!r},
             value=InitialAssignment(fn={fn_name}, args={init.args!r}),
@@ -219,11 +247,11 @@ def generate_mxlpy_code_from_symbolic_repr(
     # Derived
     derived_source = []
     for k, fn in model.derived.items():
-        functions[fn.fn_name] = (fn.expr, fn.args)
+        fn_name = _register_fn(functions, fn.fn_name, fn.expr, fn.args)
         derived_source.append(
             f"""        .add_derived(
                 {k!r},
-                fn={fn.fn_name},
+                fn={fn_name},
                 args={fn.args},
             )"""
         )
@@ -232,13 +260,14 @@ def generate_mxlpy_code_from_symbolic_repr(
     reactions_source = []
     for k, rxn in model.reactions.items():
         fn = rxn.fn
-        functions[fn.fn_name] = (fn.expr, fn.args)
+        rxn_fn_name = _register_fn(functions, fn.fn_name, fn.expr, fn.args)
 
         stoichiometry: list[str] = []
         for var, stoich in rxn.stoichiometry.items():
             if isinstance(stoich, SymbolicFn):
-                fn_name = f"{k}_stoich_{stoich.fn_name}"
-                functions[fn_name] = (stoich.expr, stoich.args)
+                fn_name = _register_fn(
+                    functions, f"{k}_stoich_{stoich.fn_name}", stoich.expr, stoich.args
+                )
                 stoichiometry.append(
                     f""""{var}": Derived(fn={fn_name}, args={stoich.args!r})"""
                 )
@@ -249,7 +278,7 @@ def generate_mxlpy_code_from_symbolic_repr(
         reactions_source.append(
             f"""        .add_reaction(
                 "{k}",
-                fn={fn.fn_name},
+                fn={rxn_fn_name},
                 args={fn.args},
                 stoichiometry={{{",".join(stoichiometry)}}},
             )"""
